@@ -51,7 +51,7 @@ std::vector<std::regex> gRegex;
 struct Cover {
     uint64_t histories = 0, ops = 0, notifies = 0, wildcardNotifies = 0, multiReceiverNotifies = 0, calls = 0, shrinks = 0, removedKeys = 0;
     uint64_t measures = 0, existsProbes = 0, probesAfterShrink = 0, fullShrinks = 0, nontrivialCases = 0, byValueMulti = 0, lazyRemovals = 0;
-    uint64_t specialRuns = 0, longLifeCycles = 0, deepKeyRuns = 0, throwingObserverRuns = 0;
+    uint64_t specialRuns = 0, longLifeCycles = 0, deepKeyRuns = 0, throwingObserverRuns = 0, nestedNotifyRuns = 0;
     std::map<std::string, uint64_t> opCount, sigCount, routerCount;
     std::vector<uint64_t> fps;
     std::vector<std::string> samples;
@@ -459,7 +459,7 @@ void runSpecial(rt::Rng rng, const char *rname, bool structural) {
     Router router;
     char d[220];
     auto special = [&](const char *rule, const char *site, const std::string &what) { fail(structural ? "C13" : "C06", rule, site, std::string(d) + ": " + what); };
-    unsigned kind = structural ? (unsigned) rng.range(1, 2) : (unsigned) rng.below(3);
+    unsigned kind = structural ? (unsigned) rng.range(1, 2) : (unsigned) rng.below(4);
     if (kind == 0) {
         static const int64_t sizes[] = {65537, 66000, 70000, 131100, 140000};
         int64_t n = rng.chance(400) ? (int64_t) rng.range(300, 3000) : sizes[rng.below(5)];
@@ -522,6 +522,30 @@ void runSpecial(rt::Rng rng, const char *rname, bool structural) {
             expectOnly(buildKey(mid), "the " + std::to_string(P) + "-level key after the shrink", 0, 1, 0);
         }
         ++C.deepKeyRuns;
+    } else if (kind == 3) {
+        // an observer that itself calls notify - on a second router of the same class, or on its own router: both calls
+        // return the number of keys THEY matched, and both deliveries are complete
+        bool same = rng.chance(400);
+        snprintf(d, sizeof d, "%s nested notify from an observer (%s)", rname, same ? "on the same router" : "on a second router");
+        gHist = d;
+        rt::crumb("%s", d);
+        Router second;
+        Router &inner = same ? router : second;
+        int cDev = 0, cLog = 0;
+        size_t innerRet = 99;
+        int nDev = (int) rng.range(2, 4), nLog = (int) rng.range(0, 3), bridgeAt = (int) rng.below((uint64_t) nDev);
+        std::vector<std::unique_ptr<USubscription>> keep;
+        for (int i = 0; i < nLog; ++i) keep.emplace_back(new USubscription(inner.template subscribe<>(buildKey(Key{"log", "l" + std::to_string(i)}), [&cLog]() { ++cLog; })));
+        for (int i = 0; i < nDev; ++i)
+            keep.emplace_back(new USubscription(router.template subscribe<>(buildKey(Key{"dev", "d" + std::to_string(i)}), [&, i]() {
+                ++cDev;
+                if (i == bridgeAt) innerRet = inner.notify(buildPattern({PLevel{false, "log", -1}, PLevel{true, ".*", 0}}));
+            })));
+        size_t outerRet = router.notify(buildPattern({PLevel{false, "dev", -1}, PLevel{true, ".*", 0}}));
+        if (cDev != nDev || cLog != nLog || outerRet != (size_t) nDev || innerRet != (size_t) nLog)
+            special("nested-notify", "notify", "the outer notify over /dev/{.*} returned " + std::to_string(outerRet) + " and reached " + std::to_string(cDev) + " of " + std::to_string(nDev) +
+                    " observers; the notify over /log/{.*} issued by one of them returned " + std::to_string(innerRet) + " and reached " + std::to_string(cLog) + " of " + std::to_string(nLog));
+        ++C.nestedNotifyRuns;
     } else {
         snprintf(d, sizeof d, "%s throwing observer at /t, then unsubscribe at /a/b and a full-depth wildcard shrink", rname);
         gHist = d;
@@ -602,7 +626,7 @@ int main(int argc, char **argv) {
                    .kv("wildcardNotifies", C.wildcardNotifies).kv("multiReceiverNotifies", C.multiReceiverNotifies).kv("byValueMultiReceiver", C.byValueMulti)
                    .kv("calls", C.calls).kv("shrinks", C.shrinks).kv("removedKeys", C.removedKeys).kv("measures", C.measures)
                    .kv("existsProbes", C.existsProbes).kv("probesAfterShrink", C.probesAfterShrink).kv("fullShrinks", C.fullShrinks)
-                   .kv("lazyRemovals", C.lazyRemovals).kv("specialRuns", C.specialRuns).kv("longLifeCycles", C.longLifeCycles).kv("deepKeyRuns", C.deepKeyRuns).kv("throwingObserverRuns", C.throwingObserverRuns).kv("nontrivialCases", C.nontrivialCases).kv("universeKeys", (uint64_t) gUniverse.size())
+                   .kv("lazyRemovals", C.lazyRemovals).kv("specialRuns", C.specialRuns).kv("longLifeCycles", C.longLifeCycles).kv("deepKeyRuns", C.deepKeyRuns).kv("throwingObserverRuns", C.throwingObserverRuns).kv("nestedNotifyRuns", C.nestedNotifyRuns).kv("nontrivialCases", C.nontrivialCases).kv("universeKeys", (uint64_t) gUniverse.size())
                    .raw("opCount", rt::jsonCounts(C.opCount)).raw("signatures", rt::jsonCounts(C.sigCount)).raw("routers", rt::jsonCounts(C.routerCount))
                    .raw("samples", rt::jsonArray(C.samples, false)));
     return 0;
